@@ -119,7 +119,7 @@ REGISTRY = {
             "run": _conv("C01", 40), "rule": RULE_CONV, "t1_sections": T1_CONV},
     "C03": {"props_file": "Props/C03.v", "files": CORE_CONV + ["Proofs/ConvSound.v", "Proofs/ConvPrim.v", "Proofs/ConvCfg.v", "Props/C03.v"],
             "run": _conv("C03", 40), "rule": RULE_CONV, "t1_sections": T1_CONV},
-    "C06": {"props_file": "Props/C06.v", "files": CORE_CONV + ["Proofs/UnstructProofs.v", "Proofs/ClassRoundtrip.v", "Proofs/ConvSound.v", "Proofs/ConvRoundtrip.v", "Proofs/ConvCfg.v", "Props/C06.v"],
+    "C06": {"props_file": "Props/C06.v", "files": CORE_CONV + ["Proofs/UnstructProofs.v", "Proofs/ClassRoundtrip.v", "Proofs/ConvSound.v", "Proofs/ConvRoundtrip.v", "Proofs/ConvAgree.v", "Proofs/ConvCfg.v", "Props/C06.v"],
             "run": _conv("C06", 40), "rule": RULE_CONV, "t1_sections": T1_CONV},
     "C05": {"props_file": "Props/C05.v", "files": CORE_CONV + ["Model/ConvErr.v", "Proofs/ConvErrProofs.v", "Proofs/ConvCfg.v", "Props/C05.v"],
             "run": (lambda v, b, tier: (hooks_checks.check_hooks(v, b.t1_summary), err_checks.check_c05(v, b.t1_summary, 60 * SIZES[tier]))), "t1_sections": T1_CONV,
@@ -143,7 +143,7 @@ REGISTRY = {
                     "in a list, inside an attrs class and inside a dataclass, for every format; non-trivial = composite type or class, and every hook check; distinct = sha1 of "
                     "(world, format, type, value)"},
     "C02": {"props_file": "Props/C02.v", "files": CORE_CONV + ["Proofs/ConvSound.v", "Proofs/ConvCfg.v", "Props/C02.v"], "run": _conv("C02", 40), "rule": RULE_CONV, "t1_sections": T1_CONV},
-    "C04": {"props_file": "Props/C04.v", "files": CORE_TPL + ["Props/C04.v"], "run": _c04, "rule": RULE_TPL, "t1_sections": ["gen"]},
+    "C04": {"props_file": "Props/C04.v", "files": CORE_TPL + ["Model/Conv.v", "Proofs/UnstructProofs.v", "Proofs/ClassSound.v", "Proofs/ClassRoundtrip.v", "Proofs/ConvAgree.v", "Proofs/ConvCfg.v", "Props/C04.v"], "run": _c04, "rule": RULE_TPL, "t1_sections": ["gen"]},
     "C09": {"props_file": "Props/C09.v", "files": CORE_TPL + ["Proofs/UnstructProofs.v", "Props/C09.v"], "run": _c09, "rule": RULE_TPL, "t1_sections": ["gen"]},
     "C20": {"props_file": "Props/C20.v", "files": ["Model/Base.v", "Model/FieldConv.v", "Props/C20.v"], "run": _c20, "t1_sections": [],
             "rule": "exhaustive enumeration of the decision domain {converter?} x {prefer_attrib_converters} x {untyped, hook found, hook not found, hook found but "
